@@ -96,14 +96,16 @@ pub fn interp1d_linear_unchecked(
                     // extrapolate left
                     if idx == 0 {
                         /* print("extrapolating left ", tgt[i]); */
-                        let slope = (y[1] - y[0]) / (x[1] - x[0]);
-                        interp.push(-slope * (x[0] - tgt[i]) + y[0]);
+                        // the line is continued through the distance ratio, as in the interpolation below
+                        // (the slope can overflow or underflow although the extrapolated value is representable)
+                        let ratio = (x[0] - tgt[i]) / (x[1] - x[0]);
+                        interp.push(y[0] - ratio * (y[1] - y[0]));
                     }
                     // extrapolate right
                     else if above {
                         /* print("extrapolating right ", tgt[i]); */
-                        let slope = (y[n - 1] - y[n - 2]) / (x[n - 1] - x[n - 2]);
-                        interp.push(slope * (tgt[i] - x[n - 1]) + y[n - 1]);
+                        let ratio = (tgt[i] - x[n - 1]) / (x[n - 1] - x[n - 2]);
+                        interp.push(y[n - 1] + ratio * (y[n - 1] - y[n - 2]));
                     }
                 }
             }
